@@ -254,6 +254,16 @@ func (m *Model) measLiveIn(shard uint64, name string) bool {
 	return false
 }
 
+// measLive reports whether the measurement has a live series in one of the shards.
+func (m *Model) measLive(shards []uint64, name string) bool {
+	for _, sh := range shards {
+		if m.measLiveIn(sh, name) {
+			return true
+		}
+	}
+	return false
+}
+
 // Write adds a point.
 func (m *Model) Write(shard uint64, s *Series, ts int64) {
 	m.ser[s.key] = s
